@@ -11,7 +11,7 @@ C14_COLOURS = "[style.colors]\nprimary = \"#000000\"\nerror = \"#FFfe01\"\nhighl
 PROPS = {
     "C01": {
         "timeouts_not_mine": True,
-        "lean_modules": ["Props.Clean", "Props.Cells", "Props.Facts19", "Props.C01p", "Props.Gen01p", "Props.GenT01p", "Props.Gen15h", "Props.GenT15h"],
+        "lean_modules": ["Props.Clean", "Props.Cells", "Props.Facts19", "Props.C01p", "Props.Gen01p", "Props.GenT01p", "Props.Gen15h", "Props.GenT15h", "Props.Gen16m", "Props.GenT16m"],
         "groups": [{"name": "render", "quick": 2500, "thorough": 60000}, {"name": "C01misc", "quick": 2000, "thorough": 60000},
                    {"name": "C14", "quick": 1500, "thorough": 40000}, {"name": "C06", "quick": 1200, "thorough": 30000, "workers": 12},
                    {"name": "present", "quick": 800, "thorough": 20000, "workers": 12},
@@ -370,7 +370,7 @@ PROPS = {
         "assumptions": ["width >= 1 for the width clause"],
     },
     "C16": {
-        "lean_modules": ["Props.C16b", "Props.Gen16", "Props.GenT16", "Props.Gen16v", "Props.GenT16v"],
+        "lean_modules": ["Props.C16b", "Props.Gen16", "Props.GenT16", "Props.Gen16v", "Props.GenT16v", "Props.Gen16m", "Props.GenT16m"],
         "groups": [{"name": "C16", "quick": 6000, "thorough": 200000}, {"name": "C07", "quick": 160, "thorough": 4000, "workers": 16},
                    {"name": "C16x", "quick": 0, "thorough": 7, "workers": 1},
                    # concurrent keys, loads and resizes: every frame as tall as the state says when it is drawn
